@@ -7,7 +7,7 @@
 (* every admissible dictionary variant.                                    *)
 (***************************************************************************)
 EXTENDS Wire
-CONSTANTS LEVEL      \* 1: singles, pairs of the core subset, scripted situations; 2: + pairs behind a handshake, triples
+CONSTANTS LEVEL      \* 1: singles, pairs of 6 core messages, scripted situations; 2: pairs of 9, + pairs behind a handshake, triples
 
 Z == <<0, 0>>
 MaxU == <<65535, 65535>>
@@ -55,15 +55,16 @@ Core == {[k |-> "choke"], [k |-> "have", index |-> <<1, 2>>], P1, [k |-> "bitfie
          XM1, XP1, KA, Unk, [k |-> "request", index |-> Z, begin |-> <<0, 1>>, length |-> <<0, 16384>>]}
 
 Small == {[k |-> "choke"], P1, XM1, KA, Unk}
+CoreL == IF LEVEL >= 2 THEN Core ELSE {P1, [k |-> "bitfield", payload |-> <<128, 1, 0>>], XM1, XP1, KA, Unk}
 
 Scripts ==
     {<<m>> : m \in Msgs}
-    \cup {<<a, b>> : a \in Core, b \in Core}
-    \cup {<<Hs, a>> : a \in Core}
+    \cup {<<a, b>> : a \in CoreL, b \in CoreL}
+    \cup {<<Hs, a>> : a \in CoreL}
     \cup (IF LEVEL >= 2 THEN {<<Hs, a, b>> : a \in Core, b \in Core} \cup {<<a, b, c>> : a \in Small, b \in Small, c \in Small}
           ELSE {})
     \cup { <<Hs, XH1, [k |-> "have_none"], KA, P1, P1>>,                 \* second P1 is a duplicate request -> reject
-           <<[k |-> "bitfield", payload |-> <<255>>], XH0, Unk0, P2, KA, P0>>,
+           <<[k |-> "bitfield", payload |-> <<255>>], (IF LEVEL >= 2 THEN XH0 ELSE XM0), Unk0, P2, KA, P0>>,   \* XH0: 32 variants
            <<KA, KA, [k |-> "unchoke"], Unk, P1, [k |-> "choke"], P1>> }
 
 MCInit == \E s \in Scripts : InitWith(s)
